@@ -30,6 +30,7 @@ sys.path.insert(0, SRC)
 
 import attrs  # noqa: E402
 import cattrs  # noqa: E402
+import cattrs.errors  # noqa: E402
 from cattrs import BaseConverter, Converter, UnstructureStrategy  # noqa: E402
 
 if not os.path.abspath(cattrs.__file__).startswith(os.path.abspath(SRC)):
@@ -90,6 +91,12 @@ class DspW:
 
 
 @attrs.define
+class DspM:
+    """a field whose type is a MAPPING of a union: the generated mapping hook (value handler baked in) sits in the direct table"""
+    m: dict[str, Union[DspA, DspD]]
+
+
+@attrs.define
 class DspH:
     """fields spelled `Annotated[T, ...]`: their hooks are found through the converter's own Annotated factory"""
     a: Annotated[DspA, "m"]
@@ -141,6 +148,11 @@ class Universe:
         add("list[OA]", list[Optional[DspA]], "list", ["OA"], [a], [pa], [(5,)])
         add("list[list[B]]", list[list[DspB]], "list", ["list[B]"], [[b]], [[pb]], [[(5, 6)]])
         add("dict[str,B]", dict[str, DspB], "dict", ["str", "B"], {"k": b}, {"k": pb}, {"k": (5, 6)})
+        # mapping types whose value type is a union / Optional (exact-type registrations; the union structure registry): the
+        # hooks Converter generates for mappings are parked in the direct table with the value handler baked in
+        add("dict[str,UAD]", dict[str, Union[DspA, DspD]], "dict", ["str", "UAD"], {"k": a}, {"k": pa}, {"k": (5,)})
+        add("Mapping[str,OA]", typing.Mapping[str, Optional[DspA]], "dict", ["str", "OA"], {"k": a}, {"k": pa}, {"k": (5,)})
+        add("M", DspM, "attrs", ["dict[str,UAD]"], DspM({"k": a}), {"m": {"k": pa}}, ({"k": (5,)},))
         add("tuple[A,P]", tuple[DspA, DspP], "tuple", ["A", "P"], (a, DspP()), [pa, {}], [(5,), {}])
         # a homogeneous tuple: shares its origin (`tuple`) with the heterogeneous one above, but not its container default
         # (Converter: list, through `gen_unstructure_iterable`; BaseConverter: the run-time class of the value)
@@ -223,6 +235,12 @@ U = Universe()
 # --------------------------------------------------------------------------------------------------
 # converter configurations
 # --------------------------------------------------------------------------------------------------
+# fallback factory ids: 0 = cattrs' default; 7001 / 7002 = tagging factories; STRICT_FB = factories that RAISE when they are
+# asked for a hook ("no hook registered for this type" -- the usual strict `unstructure_fallback_factory`): generating a
+# hook for any type that reaches them fails until the user registers the missing hook
+STRICT_FB = (7003, 7004)
+
+
 class ConvCfg:
     """Construction of a converter: class, unstructure strategy, fallback factories, dispatch-neutral options."""
 
@@ -242,8 +260,9 @@ class ConvCfg:
         return ConvCfg(j["klass"], j["tuple"], j["fb_un"], j["fb_st"], j["detailed"], j.get("extra"))
 
     def name(self):
-        return (f"{self.klass}{'/tuple' if self.tuple_strat else ''}{'/fbU' if self.fb_un else ''}"
-                f"{'/fbS' if self.fb_st else ''}{'' if self.detailed else '/fast'}")
+        return (f"{self.klass}{'/tuple' if self.tuple_strat else ''}"
+                f"{'/fbU-strict' if self.fb_un in STRICT_FB else '/fbU' if self.fb_un else ''}"
+                f"{'/fbS-strict' if self.fb_st in STRICT_FB else '/fbS' if self.fb_st else ''}{'' if self.detailed else '/fast'}")
 
     def opts(self):
         return self.name() + ("" if not self.extra else " " + json.dumps(self.extra, sort_keys=True))
@@ -256,7 +275,35 @@ class ConvCfg:
 # used (`set`, `frozenset`, `float`) are deliberately outside the universe: universe probes (and the model, which treats
 # options as dispatch-neutral) are unaffected; the option-sensitive probes of C18 observe them.
 _COLL = {"set": set, "frozenset": frozenset, "list": list, "tuple": tuple, "sorted": sorted,
-         "AbstractSet": collections.abc.Set, "MutableSet": collections.abc.MutableSet}
+         "AbstractSet": collections.abc.Set, "MutableSet": collections.abc.MutableSet,
+         "Sequence": collections.abc.Sequence, "MutableSequence": collections.abc.MutableSequence, "deque": collections.deque,
+         "Mapping": collections.abc.Mapping, "MutableMapping": collections.abc.MutableMapping, "dict": dict,
+         "Counter": collections.Counter, "OrderedDict": collections.OrderedDict}
+# "in order of decreasing generality" (docs, Customizing collection unstructuring): an override given for a type also applies to
+# the more specific types below it unless they have an override of their own
+_COLL_CHAIN = {"AbstractSet": ("MutableSet", "frozenset"), "MutableSet": ("set",), "Sequence": ("MutableSequence", "tuple"),
+               "MutableSequence": ("list", "deque"), "Mapping": ("MutableMapping",), "MutableMapping": ("dict",), "dict": ("Counter",)}
+
+
+def closed_overrides(co):
+    """the documented meaning of an `unstruct_collection_overrides` dictionary (names as in the JSON case): the given entries
+    plus, for every entry, the more specific collection types that have none of their own -- to a fixpoint"""
+    co = dict(co or {})
+    changed = True
+    while changed:
+        changed = False
+        for k, targets in _COLL_CHAIN.items():
+            for t in targets:
+                if k in co and t not in co:
+                    co[t] = co[k]
+                    changed = True
+    return co
+
+
+def seq_tag(cc, origin, default):
+    """canonical tag of the container a Converter built as `cc` unstructures a collection of origin `origin` to"""
+    v = closed_overrides(cc.extra.get("unstruct_collection_overrides")).get(origin, default)
+    return {"list": "list", "sorted": "list", "tuple": "tuple"}.get(v, v)
 _DICTS = {"dict": dict, "OrderedDict": collections.OrderedDict}
 _TYS = {"float": float, "bytes": bytes}
 
@@ -378,8 +425,8 @@ def excluded(cc: ConvCfg, d, key):
     t = U.types[key]
     if (not cc.gen()) and d == UN and t.name == "list[list[B]]":
         return True  # BaseConverter dispatches on the run-time class `list`, which is not in the universe
-    if cc.tuple_strat and d == ST and t.name == "UAD":
-        return True  # the automatic disambiguation needs mappings
+    if cc.tuple_strat and d == ST and (t.name == "UAD" or any(excluded(cc, d, p) for p in t.parts)):
+        return True  # the automatic disambiguation needs mappings (also when the union is a component)
     if (not cc.gen()) and (t.shape == "annotated" or t.name == "H"):
         return True  # BaseConverter has no Annotated support (no `is_annotated` hook factory)
     return False
@@ -414,7 +461,8 @@ def builtin_behaviour(cc: ConvCfg, d, key):
             return Beh("_unstructure_union", late=True, comps=cs, out=first)
         if sh == "list":
             if gen:
-                return Beh("gen_unstructure_iterable", "factory", "uncached", direct=True, comps=cs, out=lambda ch, s: ("list", ch))
+                tag = seq_tag(cc, "list", "list")
+                return Beh("gen_unstructure_iterable", "factory", "uncached", direct=True, comps=cs, out=lambda ch, s: (tag, ch))
             return Beh("_unstructure_seq", late=True, comps=cs, out=lambda ch, s: ("list", ch))
         if sh == "dict":
             if gen:
@@ -422,11 +470,13 @@ def builtin_behaviour(cc: ConvCfg, d, key):
             return Beh("_unstructure_mapping", late=True, comps=cs, out=_out_dict1)
         if sh == "tuple":
             if gen:
-                return Beh("gen_unstructure_hetero_tuple", "factory", "cached", direct=True, comps=cs, out=lambda ch, s: ("tuple", ch))
+                tag = seq_tag(cc, "tuple", "tuple")
+                return Beh("gen_unstructure_hetero_tuple", "factory", "cached", direct=True, comps=cs, out=lambda ch, s: (tag, ch))
             return None
         if sh == "htuple":
             if gen:  # `is_sequence` -> gen_unstructure_iterable: `unstruct_collection_overrides.get(tuple, list)`
-                return Beh("gen_unstructure_iterable", "factory", "uncached", direct=True, comps=cs, out=lambda ch, s: ("list", ch))
+                tag = seq_tag(cc, "tuple", "list")
+                return Beh("gen_unstructure_iterable", "factory", "uncached", direct=True, comps=cs, out=lambda ch, s: (tag, ch))
             return Beh("_unstructure_seq", late=True, comps=cs, out=lambda ch, s: ("tuple", ch))  # `seq.__class__(...)`
         return None
     # structure
@@ -654,10 +704,27 @@ def has_default_fallback(h):
     return False
 
 
+def has_raising_node(h, fraise):
+    """the hook tree contains a strict fallback factory, or a user hook factory asked for a type it raises on (`fraise`:
+    {factory tag: keys it raises on}): the hook cannot be built (or, under a late-binding hook, cannot be called)"""
+    if h[0] == "fallback":
+        return h[1] in STRICT_FB
+    if h[0] == "made":
+        return h[2] in fraise.get(h[1], ()) or any(has_raising_node(s, fraise) for s in h[4])
+    return False
+
+
+def fraise_of(history):
+    """{factory tag: keys on which that user hook factory raises} of the registrations of a history"""
+    return {op["tag"]: set(op["fraise"]) for op in history if op.get("op") == "factory" and op.get("fraise")}
+
+
 def expect(ctx: ModelCtx, h, key, sample):
     """Canonical result that calling hook term `h` (chosen for type `key`) on `sample` must give."""
     if ctx.d == ST and has_default_fallback(h):
         return ERR  # the default structure fallback factory raises as soon as it is asked for a hook
+    if has_raising_node(h, getattr(ctx, "fraise", {})):
+        return ERR
     return _expect(ctx, h, key, sample)
 
 
@@ -727,6 +794,10 @@ class Impl:
 
     # ---- construction
     def fb_factory(self, d, fid):
+        if fid in STRICT_FB:
+            def strict(t):
+                raise cattrs.errors.StructureHandlerNotFoundError(f"no hook registered for {t!r}", t)
+            return strict
         if d == UN:
             return lambda t: (lambda v: Tagged(("FB", fid, U.key(t))))
         return lambda t: (lambda v, _: Tagged(("FB", fid, U.key(t))))
@@ -785,7 +856,7 @@ class Impl:
     def call_hook(self, d, hook, v, tobj):
         return hook(v) if d == UN else hook(v, tobj)
 
-    def factory(self, d, tag, extended, shape=None):
+    def factory(self, d, tag, extended, shape=None, fraise=()):
         """A hook factory with the signature `shape` (harness/dispatch_shapes.py).  Its one body `core` is told what the
         factory was actually CALLED with: nothing in the converter position (`NOCONV`) -> it behaves as a plain factory;
         something there -> it records whether that is the converter being operated on and looks the component hooks up
@@ -807,6 +878,8 @@ class Impl:
 
         def core(t, converter=NOCONV, extra=False):
             key = U.key(t)
+            if key in fraise:   # a factory that cannot build a hook for this type (yet): hook generation fails
+                raise ValueError(f"hook factory #{tag} cannot handle {t!r}")
             if converter is NOCONV:
                 return made(key, "extra" if extra else False, None, None)
             cur = impl.current
@@ -881,7 +954,7 @@ class Impl:
             return None
         if kind == "factory":
             reg = c.register_unstructure_hook_factory if d == UN else c.register_structure_hook_factory
-            fac = self.factory(d, op["tag"], op["extended"], op.get("shape"))
+            fac = self.factory(d, op["tag"], op["extended"], op.get("shape"), frozenset(op.get("fraise", ())))
             if op.get("form") == "deco":
                 reg(self.pred_fn(op["pred"]))(fac)
             else:
@@ -1036,6 +1109,88 @@ def run_spec(drv, history, d, cc, preds, keys):
 
 
 # --------------------------------------------------------------------------------------------------
+# store histories: the registration history and the construction of EVERY converter of a store (copies included)
+# --------------------------------------------------------------------------------------------------
+REG_OPS = ("hook", "func", "factory")
+
+
+def store_view(history, cfgs0):
+    """-> (cfgs, regs_of): for every converter of the store that `history` builds from converters constructed as `cfgs0`,
+    its configuration and the registrations that make up ITS history, rewired to converter 0: a copy starts with the
+    registrations its source had received when the copy was taken and is constructed with the source's options, the ones
+    given to `copy()` replaced (the `cfg` entry of the copy op).  Written from the property statements (C07: "after any
+    sequence of registrations"; C18: "every registered hook of every kind with its precedence"), independently of the
+    model's `origins`."""
+    cfgs = list(cfgs0)
+    regs_of = {i: [] for i in range(len(cfgs))}
+    for op in history:
+        if op["op"] == "copy":
+            regs_of[len(cfgs)] = list(regs_of[op["src"]])
+            cfgs.append(ConvCfg.from_json(op["cfg"]))
+        elif op["op"] in REG_OPS:
+            regs_of[op["conv"]].append(dict(op, conv=0))
+    return cfgs, regs_of
+
+
+def apply_override(cc, kwargs):
+    """configuration of `copy(**kwargs)` of a converter configured as `cc`: every given option replaces the source's,
+    every other option is carried"""
+    new = ConvCfg.from_json(cc.to_json())
+    for k, v in kwargs.items():
+        if k == "detailed_validation":
+            new.detailed = v
+        elif k == "unstruct_strat":
+            new.tuple_strat = v == "astuple"
+        else:
+            new.extra[k] = v
+    return new
+
+
+def copy_op(src, cc, kwargs, how="copy"):
+    return {"op": "copy", "src": src, "how": how, "kwargs": kwargs, "cfg": apply_override(cc, kwargs).to_json()}
+
+
+def run_spec_store(drv, history, d, cfgs0, preds, rows):
+    """`spec F o.cfg o.hist t` for `o = origins[i]` (right-hand side of theorem C07_precedence_store) for every
+    (converter index i, [type keys]) of `rows` -> {(i, key): hook term}"""
+    shape_info(drv)
+    ctx0 = ModelCtx(cfgs0[0], d, preds)
+    sops, _ = model_ops(history, d, cfgs0)
+    parts = [f"(copy {s[1]} {ctx0.cfg_sx(s[2])})" if isinstance(s, tuple) else s for s in sops]
+    store = " ".join(ctx0.cfg_sx(cc) for cc in cfgs0)
+    others = [ModelCtx(cc, d, preds) for cc in list(cfgs0[1:]) + [s[2] for s in sops if isinstance(s, tuple)]]
+    want = " ".join(f"({i} {' '.join(map(str, keys))})" for i, keys in rows)
+    r = drv.ask(f"SPECSTORE {ctx0.facts_sx(others)} ({store}) ({' '.join(parts)}) ({want})")
+    if not r.startswith("(ok"):
+        raise lean.InfraError("model driver (SPECSTORE): " + r[:200])
+    out = {}
+    for (i, keys), terms in zip(rows, parse_sx(r)[0][1:]):
+        for k, t in zip(keys, terms):
+            out[(i, k)] = parse_hook(t)
+    return out
+
+
+def in_thread(fn, *args):
+    """run `fn(*args)` on a thread of its own and return its result (exceptions are re-raised here).  cattrs keeps
+    per-THREAD state while it generates hooks (`already_generating.working_set`); a run that is to serve as a reference for
+    another run must not share it."""
+    import threading
+    box = {}
+
+    def body():
+        try:
+            box["r"] = fn(*args)
+        except BaseException as e:  # noqa: BLE001
+            box["e"] = e
+    th = threading.Thread(target=body)
+    th.start()
+    th.join()
+    if "e" in box:
+        raise box["e"]
+    return box["r"]
+
+
+# --------------------------------------------------------------------------------------------------
 # reference implementation of the documented precedence rule (oracle of C07), independent of the model
 # --------------------------------------------------------------------------------------------------
 def ref_choose(history, d, cc: ConvCfg, preds, key, conv=0, _ctx=None, literal=False):
@@ -1129,7 +1284,7 @@ def gen_shape(rng, extended, f61=0.0):
     return rng.choice(shapes.EXTENDED if extended else shapes.PLAIN)
 
 
-def gen_reg(rng, conv, d, preds, tagger, prev=None, f61=0.0):
+def gen_reg(rng, conv, d, preds, tagger, prev=None, f61=0.0, fraise=0.0):
     """a registration op; `prev` = the ops generated so far: with some probability an earlier registration target
     (same converter and direction; unions and NewTypes preferred) is registered AGAIN with a new hook"""
     if prev and rng.random() < 0.22:
@@ -1152,8 +1307,12 @@ def gen_reg(rng, conv, d, preds, tagger, prev=None, f61=0.0):
     if r < 0.65:
         return {"op": "func", "conv": conv, "dir": d, "pred": pid, "tag": tagger()}
     ext = rng.random() < 0.5
-    return {"op": "factory", "conv": conv, "dir": d, "pred": pid, "tag": tagger(), "extended": ext,
-            "form": rng.choice(["call", "deco"]), "shape": gen_shape(rng, ext, f61)}
+    op = {"op": "factory", "conv": conv, "dir": d, "pred": pid, "tag": tagger(), "extended": ext,
+          "form": rng.choice(["call", "deco"]), "shape": gen_shape(rng, ext, f61)}
+    if fraise and rng.random() < fraise and preds[pid][0]:
+        acc = sorted(preds[pid][0])   # the factory raises on some of the types its predicate accepts
+        op["fraise"] = sorted(rng.sample(acc, rng.randint(1, min(3, len(acc)))))
+    return op
 
 
 def gen_warm(rng, conv, d, cc):
@@ -1186,6 +1345,8 @@ def describe(op):
         return f"c{op['conv']}.{op['dir']}.func(p{op['pred']})#{op['tag']}"
     if k == "factory":
         sh = f"<def({op['shape']})>" if op.get("shape") else ""
+        if op.get("fraise"):
+            sh += f"<raises on {','.join(U.types[k].name for k in op['fraise'])}>"
         return f"c{op['conv']}.{op['dir']}.{'ext' if op['extended'] else ''}factory[{op.get('form','call')}]{sh}(p{op['pred']})#{op['tag']}"
     if k == "get":
         return f"c{op['conv']}.{op['dir']}.get({tn},cached={op.get('cached',True)},apply={op.get('apply',True)})"
